@@ -634,6 +634,18 @@ fn floats(out: &mut Vec<Decl>) {
             out.push(tw);
         }
 
+        // E3. `finite` with extreme bounds (the Arbitrary scaling arithmetic overflows there), deriving
+        //     Eq/Ord and every entry point: no entry point may hand out a non-finite value
+        for (name, vals) in [
+            ("full-span", vec![ValSpec::Finite, ValSpec::GreaterEq(expr_f("type-min", &format!("{ty}::MIN"), f64::MIN)), ValSpec::LessEq(expr_f("type-max", &format!("{ty}::MAX"), f64::MAX))]),
+            ("huge-lower", vec![ValSpec::GreaterEq(lit_f(if inner == Inner::F32 { 1e38 } else { 1e308 })), ValSpec::Finite]),
+            ("huge-upper", vec![ValSpec::Finite, ValSpec::LessEq(lit_f(if inner == Inner::F32 { -1e38 } else { -1e308 }))]),
+            ("wide-two-sided", vec![ValSpec::Greater(lit_f(if inner == Inner::F32 { -3e38 } else { -1.5e308 })), ValSpec::Less(lit_f(if inner == Inner::F32 { 3e38 } else { 1.5e308 })), ValSpec::Finite]),
+        ] {
+            let d = std(Decl::new(inner), vals).tag(&format!("float-finite-extreme:{name}"));
+            out.push(with_derives(d, &[Tr::Debug, Tr::Clone, Tr::Copy, Tr::PartialEq, Tr::Eq, Tr::PartialOrd, Tr::Ord, Tr::TryFrom, Tr::FromStr, Tr::Deserialize, Tr::Arbitrary]));
+        }
+
         // F. single traits
         let singles: Vec<Vec<Tr>> = vec![
             vec![Tr::Debug],
